@@ -176,9 +176,11 @@ def base_supported(w: World, t, seen=None) -> bool:
     k = t[0]
     if k == "annot":
         return False
+    if k in ("counter", "defaultdict"):
+        return False          # their hooks are registered by Converter only
     if k == "newtype":
         return t[2][0] == "prim"
-    if k in ("list", "tuphom", "set", "fset", "opt"):
+    if k in ("list", "tuphom", "set", "fset", "opt", "deque"):
         return base_supported(w, t[1], seen)
     if k == "tuple":
         return False          # "Structuring heterogenous tuples are not supported by the BaseConverter" (docs/defaulthooks.md)
